@@ -1174,6 +1174,37 @@ impl Described for SelfJudged {
     }
 }
 
+// variant identifiers with non-ASCII upper-case letters under `rename_all = lowercase` (enum counterpart of `Accent`)
+src_text! { SAISON_SRC,
+#[derive(Deserr, Debug, Clone, PartialEq)]
+#[deserr(rename_all = lowercase)]
+#[allow(non_camel_case_types)]
+pub enum Saison {
+    Été,
+    Ärger,
+    Plain,
+}
+}
+impl ToModel for Saison {
+    fn to_model(&self) -> M {
+        let v = match self {
+            Saison::Été => "Été",
+            Saison::Ärger => "Ärger",
+            Saison::Plain => "Plain",
+        };
+        M::Variant { name: "Saison".into(), variant: v.into(), fields: vec![] }
+    }
+}
+impl Described for Saison {
+    fn ty() -> Ty {
+        Ty::UnitEnum(Arc::new(UnitEnumTy {
+            name: "Saison".into(),
+            variants: vec![("Été".into(), "été".into()), ("Ärger".into(), "ärger".into()), ("Plain".into(), "plain".into())],
+            validate: None,
+        }))
+    }
+}
+
 pub fn hand_entries() -> Vec<(Entry, bool)> {
     // (entry, modelled by the reference interpreter)
     vec![
@@ -1228,6 +1259,8 @@ pub fn hand_entries() -> Vec<(Entry, bool)> {
         (Entry::generic::<HashSet<NonZeroI16>>("HashSet<NonZeroI16>", "", "std"), true),
         (Entry::generic::<Vec<f64>>("Vec<f64>", "", "std"), true),
         (Entry::generic::<Box<Option<Box<Tree>>>>("Box<Option<Box<Tree>>>", "", "hand"), true),
+        (Entry::generic::<Saison>("Saison", SAISON_SRC, "hand"), true),
+        (Entry::generic::<Vec<Saison>>("Vec<Saison>", SAISON_SRC, "hand"), true),
     ]
 }
 
